@@ -5,11 +5,12 @@ EXTENDS PopulatorMC
 
 \* thorough: shards small enough to dump (<= ~2*10^4 scenarios each)
 TreesT(n) == {Tree(F, Em) : F \in {x \in SUBSET FileU : Cardinality(x) = n}, Em \in Empties} \cup RichTrees
-Sc_t1 == Fam1(TreesT(1) \cup TreesT(2))
-Sc_t2 == Fam1({tr \in TreesT(3) : dx \in tr.files \/ dxt \in tr.files})
-Sc_t3 == Fam1({tr \in TreesT(3) : dx \notin tr.files /\ dxt \notin tr.files})
+Sc_t1 == <<Fam1(TreesT(1)), Fam1(TreesT(2))>>
+Sc_t2 == <<Fam1({tr \in TreesT(3) : dx \in tr.files \/ dxt \in tr.files})>>
+Sc_t3 == <<Fam1({tr \in TreesT(3) : dx \notin tr.files /\ dxt \notin tr.files})>>
 Lists2T == Lists2 \cup {<<P(RD, {"txt"}), P(RD, {"txt"}), P(RD, {})>>, <<P(DS, {}), P(RD, {"gz"})>>, <<P(RE, {}), P(RD, {"png"})>>}
 TreesCT == {Tree(F, Em) : F \in UpTo(DFiles \cup {dszt}, 4) \ {{}}, Em \in {{}}}
-Sc_t4 == Fam2(TreesCT, Lists2T, Adds2 \cup {<<P(RD, {}), P(DS, {"txt"})>>})
-Sc_t5 == Fam3(3) \cup Fam4
+Adds2T == Adds2 \cup {<<P(RD, {}), P(DS, {"txt"})>>}
+Sc_t4 == <<Fam2a(TreesCT, Lists2T), Fam2b(TreesCT, Lists2T, Adds2T)>>
+Sc_t5 == <<Fam3a(3), Fam3b(3), Fam4a, Fam4b>>
 =============================================================================
